@@ -161,6 +161,10 @@ def main(out, dmax, cmax, nlayout, seed, anc_states):
                     rows += guarded(one, desc, name, d, bits, ab, cycles, 'main', refocus=rf, _many=True, _label=name)
             if name.endswith(str(d)) and d <= 3:
                 rows += guarded(one, desc, name, d, states[-1], None, cycles, 'simplified', _many=True, _label=name)
+    # many cycles (the repeated block is unrolled 5+ times; d >= 3 so that the block has leaves of different length)
+    for d_, cyc in ((3, 7), (4, 6), (3, 9)):
+        desc_ = RepetitionCodeDescription.from_chain(length=2 * d_ - 1)
+        rows += guarded(one, desc_, 'chain%d' % d_, d_, tuple((k + 1) % 2 for k in range(d_)), None, cyc, 'main', refocus=True, _many=True, _label='chain%d-c%d' % (d_, cyc))
     lds = list(layout_descs(5))
     for desc, name, nd, rf in lds:
         if isinstance(desc, Exception):
